@@ -3,7 +3,8 @@ Model of the wavelength / photometric-system / band-flux conversions (C19).
 
   pydl/goddard/astro.py      airtovac (10-66), vactoair (157-212)   (after the D14 fix: np.where)
   pydl/photoop/sdssio.py     sdssflux2ab (237-282)
-  pydl/pydlspec2d/spec2d.py  filter_thru (385-450): the normalised weighted sum of lines 438-449
+  pydl/pydlspec2d/spec2d.py  filter_thru: the normalised weighted sum (`filterMean`) and, extension round, everything from
+                             the wavelength image on (`toairImg` … `filterThru`) except the trace-set fit of d log10 λ
   pydl/pydlutils/image.py    djs_maskinterp1 (index mode, the form filter_thru uses)
 
 Everything is written once over `[Scalar α]`; it is executed at `Float` by the
@@ -11,11 +12,14 @@ driver and interpreted at an ordered field in Props/C19.lean.  The numeric
 constants are kept in a table (`constTable`) that the harness compares with the
 constants extracted from the AST of the current source (Gen/C19Consts.lean).
 
-Parameters (not modelled): `pow10` (numpy `10.0**x`), `log10` (only in the
-theorems), astropy's unit scale factors `k`, `kinv`, and the weight image of
-filter_thru (`|d log λ|`·response: trace-set fit, np.interp, log10 - supplied by
-the harness).  numpy's `sum` is modelled as a left-to-right sum; numpy adds
-pairwise, which differs by rounding only (compared at tolerance).
+Parameters (not modelled): `pow10` (numpy `10.0**x`), `log10`, astropy's unit
+scale factors `k`, `kinv`, and - of the weight image of filter_thru - the
+trace-set fit of `d log10 λ` (`ld` / `fit`, contract stated at `weightsOf`; taken
+by the harness from the real TraceSet).  `filterMean` alone still takes the
+weight image as an input; `weightsOf` … `filterThru` (extension round) compute it
+from the wavelength image, the filter curve and `ld`.  numpy's `sum` is modelled
+as a left-to-right sum; numpy adds pairwise, which differs by rounding only
+(compared at tolerance).
 -/
 import PydlVerif.Model.Scalar
 namespace PydlVerif.Wave
@@ -180,6 +184,110 @@ is a parameter so that the theorems can be stated for any interpolation that
 meets the contract; the driver uses `maskInterp`. -/
 def filterMeanMasked (interp : List Bool → List α → List α) (mask : List Bool) (r f : List α) : α :=
   filterMean r (interp mask f)
+
+/-! ## filter_thru: the weight image (extension round)
+
+The weight image of `filter_thru` (lines 431-449 of spec2d.py in the fixed tree):
+
+    if toair: newwaveimg = vactoair(waveimg)  else: newwaveimg = waveimg
+    logwave = np.log10(newwaveimg)
+    diffy = logwave[:, 1:] - logwave[:, 0:nx-1]
+    diffset = xy2traceset(diffx, diffy, ncoeff=4, xmin=0, xmax=nx-1);  pixnorm, logdiff = traceset2xy(diffset)
+    logdiff = np.absolute(logdiff)
+    filtimg = logdiff * np.interp(newwaveimg.flatten(), lam, respt).reshape(logdiff.shape)
+
+Modelled: the `toair` conversion of the whole image, `diffy` (with `log10` a parameter), `np.absolute`,
+`np.interp` of the filter curve (default `left = fp[0]`, `right = fp[-1]`) and the product.  Parameter with a
+contract: `ld`, the image `traceset2xy(xy2traceset(diffx, diffy, ncoeff=4, xmin=0, xmax=nx-1))[1]` (the cubic
+Legendre fit of `diffy`, evaluated at the integer pixels `0 .. nx-1`, signed - before `np.absolute`); the
+harness takes it from the real `TraceSet`.  `fit` in `filterThruFit` is the same thing as a function of `diffy`. -/
+
+/-- `np.absolute` -/
+def absS (x : α) : α := if x < Scalar.ofNat 0 then -x else x
+
+/-- The walk of `np.interp` to the right of the current sample `(x0, f0)` (own copy of the walk in
+Model/Interp.lean): numpy finds `j` with `xp[j] ≤ x < xp[j+1]`, returns `fp[j]` when `j` is the last sample
+or `xp[j] == x`, otherwise `slope*(x - xp[j]) + fp[j]`, `slope = (fp[j+1]-fp[j])/(xp[j+1]-xp[j])`. -/
+def interpGo (x : α) : α → α → List (α × α) → α
+  | _, f0, [] => f0
+  | x0, f0, (x1, f1) :: rest =>
+    if x < x1 then (if Scalar.beq x0 x then f0 else (f1 - f0) / (x1 - x0) * (x - x0) + f0)
+    else interpGo x x1 f1 rest
+
+/-- `np.interp(x, xp, fp)` on the non-empty sample list `(x0,f0) :: rest`; filter_thru passes neither `left`
+nor `right`, so the ends are constant: `fp[0]` below `xp[0]`, `fp[-1]` from `xp[-1]` on. -/
+def npInterp (x0 f0 : α) (rest : List (α × α)) (x : α) : α :=
+  if x < x0 then f0 else interpGo x x0 f0 rest
+
+/-- split a flat list like the rows of `img` (`.reshape(img.shape)`) -/
+def reshapeLike : List (List α) → List α → List (List α)
+  | [], _ => []
+  | row :: rows, flat => flat.take row.length :: reshapeLike rows (flat.drop row.length)
+
+/-- `newwaveimg`: `vactoair(waveimg)` on the whole image (plain ndarray path, so the early return looks at
+every pixel of every trace) when `toair`, else the image itself -/
+def toairImg (toair : Bool) (img : List (List α)) : List (List α) :=
+  if toair then reshapeLike img (vactoairArr none img.flatten) else img
+
+/-- `diffy` of one trace: `logwave[1:] - logwave[0:nx-1]` with `logwave = log10(newwave)` -/
+def logDiffY (log10 : α → α) (w : List α) : List α :=
+  let lw := w.map log10
+  List.zipWith (fun a b => b - a) lw lw.tail
+
+/-- one trace of `filtimg` for the curve `(x0,f0) :: rest`: `np.absolute(ld) * np.interp(newwave, lam, respt)` -/
+def weightsOf (ld : List α) (x0 f0 : α) (rest : List (α × α)) (w : List α) : List α :=
+  List.zipWith (fun d x => absS d * npInterp x0 f0 rest x) ld w
+
+/-- the same with numpy's refusals: `np.interp` raises ValueError for an empty curve, the product does not
+broadcast when the fitted image and the wavelength image differ in shape -/
+def weightRow (ld : List α) (curve : List (α × α)) (w : List α) : Except String (List α) :=
+  match curve with
+  | [] => throw "ValueError"
+  | (x0, f0) :: rest => if ld.length = w.length then pure (weightsOf ld x0 f0 rest w) else throw "ValueError"
+
+/-- one trace, one band: the weights, the flux interpolated over the masked pixels, the normalised sum -/
+def bandFlux (ld : List α) (curve : List (α × α)) (w : List α) (mask : Option (List Bool)) (f : List α) :
+    Except String α := do
+  let r ← weightRow ld curve w
+  if f.length = w.length then
+    let f' := match mask with
+      | none => f
+      | some m => maskInterp m f
+    pure (filterMean r f')
+  else throw "ValueError"
+
+/-- one trace, all bands (`for i, f in enumerate(ffiles)`) -/
+def filterThruRow (ld : List α) (curves : List (List (α × α))) (w : List α) (mask : Option (List Bool))
+    (f : List α) : Except String (List α) :=
+  curves.mapM (fun c => bandFlux ld c w mask f)
+
+/-- the mask of each trace: `mask=None` → none for every trace; a mask image must have one row per trace -/
+def maskRows (n : Nat) : Option (List (List Bool)) → Except String (List (Option (List Bool)))
+  | none => pure (List.replicate n none)
+  | some ms => if ms.length = n then pure (ms.map some) else throw "ValueError"
+
+/-- rows `0 .. n-1` of the four images side by side -/
+def filterRows (curves : List (List (α × α))) :
+    List (List α) → List (List α) → List (Option (List Bool)) → List (List α) → Except String (List (List α))
+  | ld :: lds, w :: ws, m :: ms, f :: fs => do
+    let r ← filterThruRow ld curves w m f
+    let rs ← filterRows curves lds ws ms fs
+    pure (r :: rs)
+  | [], [], [], [] => pure []
+  | _, _, _, _ => throw "ValueError"
+
+/-- `filter_thru(flux, waveimg, mask=, toair=)` given the fitted image `lds` (contract above, computed from
+`toairImg toair wave`): result `[trace][band]` -/
+def filterThru (toair : Bool) (lds : List (List α)) (curves : List (List (α × α))) (wave : List (List α))
+    (masks : Option (List (List Bool))) (flux : List (List α)) : Except String (List (List α)) := do
+  let ms ← maskRows flux.length masks
+  filterRows curves lds (toairImg toair wave) ms flux
+
+/-- the same with the trace-set fit as a function `fit : diffy ↦ logdiff` of one trace -/
+def filterThruFit (log10 : α → α) (fit : List α → List α) (toair : Bool) (curves : List (List (α × α)))
+    (wave : List (List α)) (masks : Option (List (List Bool))) (flux : List (List α)) :
+    Except String (List (List α)) :=
+  filterThru toair ((toairImg toair wave).map (fun w => fit (logDiffY log10 w))) curves wave masks flux
 
 end
 end PydlVerif.Wave
